@@ -36,7 +36,11 @@ where
     let listener = TcpListener::bind((host.to_string().as_str(), port)).await?;
     let resolved_addr = listener.local_addr()?;
     let (stop_channel, stop_callback) = futures::channel::oneshot::channel::<()>();
+    // Dropped together with the accept task: ends the handshakes still in flight
+    let (handshakes_stop, handshakes_stopped) = futures::channel::oneshot::channel::<()>();
+    let handshakes_stopped = handshakes_stopped.shared();
     let task_handle = async_rt::task::spawn(async move {
+        let _handshakes_stop = handshakes_stop;
         let mut stop_callback = stop_callback.fuse();
         loop {
             select! {
@@ -54,7 +58,10 @@ where
                             )
                         })
                         .map_err(|err| err.into());
-                    async_rt::task::spawn(cback(maybe_accepted));
+                    async_rt::task::spawn(super::until_stopped(
+                        cback(maybe_accepted),
+                        handshakes_stopped.clone(),
+                    ));
                 }
                 _ = stop_callback => {
                     break
